@@ -14,7 +14,11 @@
      ktuples set of kind tuples, one kind per operand
      forms   set of form tuples, one of "d" "n" "s" "-" per operand
      allch   TRUE: ALL chunkings of every dask operand; FALSE: the two extreme ones
-     zero    TRUE: also chunkings with a zero-width chunk                      *)
+     zero    TRUE: also chunkings with a zero-width chunk
+     special TRUE: kernel-mode values - the second operand always holds 0 and
+             negative numbers (floats: inf, -inf, nan too), the first one mixed
+             signs (floats: inf, nan); a scalar second operand takes every value
+             of the pool in turn                                               *)
 EXTENDS Elemwise
 
 CONSTANTS Configs
@@ -35,6 +39,27 @@ Val(k, mo, id) == IF k = "b" THEN Tri(id + mo[2]) % 2 ELSE Cast(k, mo[1] * id + 
 Opd(f, k, sh, ch, mo) ==
   IF f = "-" THEN Absent
   ELSE [f |-> f, k |-> k, sh |-> sh, ch |-> ch, v |-> [p \in 1..Size(sh) |-> Val(k, mo, p - 1)]]
+
+\* kernel-mode value pools (module Elemwise: INF NINF NAN are codes)
+Pool(k) == CASE k = "b" -> <<0, 1>>
+             [] k = "u" -> <<0, 3, 255, 1>>
+             [] k = "i" -> <<0, -3, 2, 7, -1>>
+             [] k = "f" -> <<0, -3, 2, INF, NINF, NAN, -1>>
+             [] k = "c" -> <<0, -3, 2, 1>>
+SpecialVal(k, role, id, rot) ==
+  IF role = 2 THEN Pool(k)[((id + rot) % Len(Pool(k))) + 1]
+  ELSE IF k = "b" THEN Tri(id + 1) % 2
+  ELSE IF k = "f" /\ id % 7 = 5 THEN INF
+  ELSE IF k = "f" /\ id % 7 = 6 THEN NAN
+  ELSE Cast(k, IF id % 2 = 0 THEN 3 * id + 2 ELSE -(3 * id + 2))
+SpecialOpd(f, k, sh, ch, role, rot) ==
+  [f |-> f, k |-> k, sh |-> sh, ch |-> ch, v |-> [p \in 1..Size(sh) |-> SpecialVal(k, role, p - 1, rot)]]
+\* rotations of the pool tried for the second operand: all of them for a Python scalar (a
+\* negative Python int cannot meet a uint8 array: OverflowError), none otherwise
+Rots(g, fs, ks) ==
+  IF g.special /\ Len(fs) >= 2 /\ fs[2] = "s"
+  THEN {r \in 0..(Len(Pool(ks[2])) - 1) : ~(ks[1] = "u" /\ ks[2] = "i" /\ Pool(ks[2])[r + 1] < 0)}
+  ELSE {0}
 
 \* "identifying" values for + - * (and where / out): role r lives in its own decimal digit
 Ident(role) == CASE role = 1 -> <<1, 1>> [] role = 2 -> <<10, 10>> [] role = 3 -> <<100, 100>> [] OTHER -> <<1, 0>>
@@ -57,7 +82,7 @@ Tuples(g) == {t \in [1..Arity(g.fam) -> g.shapes] : BroadcastOK(t)} \cup {t \in 
 FormFits(fs, sp) == \A j \in DOMAIN fs : fs[j] \in {"s", "-"} => sp[j] = <<>>
 KindFits(op, fs, ks) ==
   /\ \A j \in DOMAIN fs : fs[j] = "s" => ks[j] # "u"            \* there is no Python uint
-  /\ (op \in DivOps /\ Len(ks) >= 2) => ks[2] # "b"             \* no zero divisors
+  /\ (op \in DivOps /\ Len(ks) >= 2) => ks[2] # "b"             \* no zero divisors (interpreted ops)
 
 RECURSIVE ChunkChoices(_, _, _)
 \* all ways to choose chunks for the operands (sequence of chunkings)
@@ -65,16 +90,18 @@ ChunkChoices(g, fs, sp) ==
   IF fs = <<>> THEN {<<>>}
   ELSE {<<c>> \o r : c \in ChFor(g, Head(fs), Head(sp)), r \in ChunkChoices(g, Tail(fs), Tail(sp))}
 
-MkCase(g, op, fs, ks, sp, cc) ==
+MkCase(g, op, fs, ks, sp, cc, rot) ==
   [lab |-> g.lab, fam |-> g.fam, op |-> op,
-   xs |-> [j \in 1..Arity(g.fam) |-> Opd(fs[j], ks[j], sp[j], cc[j], VPFor(g.fam, op, j))]]
+   xs |-> [j \in 1..Arity(g.fam) |->
+             IF g.special THEN SpecialOpd(fs[j], ks[j], sp[j], cc[j], j, rot)
+             ELSE Opd(fs[j], ks[j], sp[j], cc[j], VPFor(g.fam, op, j))]]
 
 \* the case space as nested choices (TLC enumerates them without building the set)
 Init == \E g \in Configs : \E sp \in Tuples(g) : \E op \in g.ops : \E fs \in g.forms : \E ks \in g.ktuples :
           /\ Len(fs) = Arity(g.fam) /\ FormFits(fs, sp)
           /\ Len(ks) = Arity(g.fam) /\ KindFits(op, fs, ks)
-          /\ \E cc \in ChunkChoices(g, fs, sp) :
-                /\ case = MkCase(g, op, fs, ks, sp, cc)
+          /\ \E cc \in ChunkChoices(g, fs, sp) : \E rot \in Rots(g, fs, ks) :
+                /\ case = MkCase(g, op, fs, ks, sp, cc, rot)
                 /\ exp = Expected(case)
                 /\ out = ToJson([c |-> case, e |-> exp])
 Next == UNCHANGED <<case, exp, out>>
@@ -118,9 +145,19 @@ Selects ==
   /\ (case.fam = "outwhere" /\ ~exp.err /\ ~Present(case.xs[4])) =>
         \A p \in DOMAIN exp.cells : exp.cells[p] # DC
 
+\* kernel mode: every result cell is a kernel term over one cell of each operand, and the
+\* second operand of every non-empty binary case holds a zero (the pool starts with it)
+KernelTerms ==
+  (case.op \in KOps /\ ~exp.err) =>
+    /\ \A p \in DOMAIN exp.cells :
+          /\ exp.cells[p][1] = "K"
+          /\ \E q \in DOMAIN case.xs[1].v : exp.cells[p][2] = case.xs[1].v[q]
+          /\ case.op \in KBinOps => \E q \in DOMAIN case.xs[2].v : exp.cells[p][3] = case.xs[2].v[q]
+    /\ (case.op \in KBinOps /\ case.xs[2].f # "s" /\ case.xs[2].v # <<>>) => case.xs[2].v[1] = 0
+
 \* comparisons and logical_not give 0/1; uint8 results stay in 0..255
 Ranges ==
   ~exp.err =>
     /\ exp.kind = "b" => \A p \in DOMAIN exp.cells : exp.cells[p] \in {0, 1, DC}
-    /\ (exp.kind = "u" /\ case.op # "truediv") => \A p \in DOMAIN exp.cells : exp.cells[p] \in (0..255) \cup {DC}
+    /\ (exp.kind = "u" /\ case.op \notin ({"truediv"} \cup KOps)) => \A p \in DOMAIN exp.cells : exp.cells[p] \in (0..255) \cup {DC}
 =============================================================================
